@@ -212,6 +212,18 @@ CLAIMED.update({
                   "only), random_sample, text/avro/dataframe I/O, non-associative binops, non-neutral initial values.", design_ref="DESIGN.md sec. 3 C48"),
 })
 
+CLAIMED.update({
+ "C10": dict(text="(a) the real _fuse_annotations / _can_fuse_annotations on 2-3 annotation dicts with symbolic priority, retries and resource amounts and enumerated worker "
+                  "sets / allow_other_workers: fused priority and retries are the maximum, resources the per-resource maximum, workers the intersection, "
+                  "allow_other_workers the conjunction, for all values (z3). (b) stacks of 1-3 real Blockwise layers from a grammar of 22 index patterns (elementwise, "
+                  "transpose, contraction with every concatenate mode, broadcast, new axes, IO layers with and without key-producing deps) over symbolic leaves: "
+                  "_cull_dependencies equals the dependencies of the materialised tasks for every requested block subset, HighLevelGraph.cull keeps the requested "
+                  "values (z3 equality over leaf values). (c) optimize_blockwise / fuse_roots before and after culling compute the same values; annotated layers "
+                  "fuse only consistently with (a). e2e through da.blockwise and dask.annotate against NumPy.",
+             note=_ENUM_NOTE + "Block values are provenance tuples in 1-element object arrays so concatenate=True runs the real concatenate_axes. Outside: pyarrow IO "
+                  "layers, callable annotation values, > 3 layers / > 3 blocks per index, minimality of culling.", design_ref="DESIGN.md sec. 3 C10"),
+})
+
 NOT_APPLICABLE = {}
 
 _NA_DESIGN = {
